@@ -11,7 +11,8 @@ ORACLE = ('pen model: U/D/L/R/E/F/G/H n moves by n * direction vector, scaled as
 BOUNDS = {'_draw_step': 'all start points -32768..32767, steps -99999..99999 per axis, scale 1..255, '
                         'angle 0, both flags', 'command strings': 'templates [B][N] <letter> [sign] '
           '<1-3 digits> with the letter any byte, and free byte strings of length <= 3 (quick) / 4 '
-          '(thorough) over all 256 byte values', 'outside': 'rotation (A, TA: Python floats and trig), X '
+          '(thorough) over all 256 byte values', 'M commands': 'M x,y / M+x,y / M-x,y with two- and one-digit symbolic numbers, optional sign on y, '
+          'prefixes B and N', 'outside': 'rotation (A, TA: Python floats and trig), X '
           'substrings and =variable; arguments, P (paint), WINDOW'}
 ASSUMPTIONS = ['z3 decides the formulas', 'symx models validated per path',
                'int / 4.0 is modelled as an exact dyadic number (exact in IEEE doubles below 2^53)',
@@ -137,6 +138,52 @@ def body_move(h):
     return [res[0], res[1]]
 
 
+def body_m(h):
+    """M x,y (absolute) and M+-x,y (relative) with symbolic one/two digit numbers"""
+    G, g = _gfx(h)
+    rel = h.params['rel']            # 0 absolute, 43 '+', 45 '-'
+    pre = h.params['prefix']
+    scale = h.choice('scale', [1, 4, 9])
+    g._draw_scale = scale
+    x0, y0 = h.int('x0', -1000, 1000), h.int('y0', -1000, 1000)
+    g._draw_current = (x0, y0)
+    g._last_point = (x0, y0)
+    xd = [h.int('xd%d' % i, 48, 57) for i in range(h.params['nx'])]
+    yd = [h.int('yd%d' % i, 48, 57) for i in range(h.params['ny'])]
+    ysign = h.params['ysign']
+    text = list(pre) + [77] + ([rel] if rel else []) + xd + [44] + ([ysign] if ysign else []) + yd
+    res = h.call(g._draw, _bytes(h, text))
+    x = 0
+    for d in xd:
+        x = x * 10 + (d - 48)
+    y = 0
+    for d in yd:
+        y = y * 10 + (d - 48)
+    if rel == 45:
+        x = -x
+    if ysign == 45:
+        y = -y
+    blank, back = 66 in pre, 78 in pre
+    if res[0] != 'ok':
+        h.require('m-accepted', False)
+        return [res[0], res[1]]
+    if rel:
+        x1, y1 = x0 + _scaled(scale, x), y0 + _scaled(scale, y)
+    else:
+        x1, y1 = x, y
+    cur = g._draw_current
+    if back:
+        h.require('n-returns-to-start', s_and(cur[0] == x0, cur[1] == y0))
+    else:
+        h.require('end-position', s_and(cur[0] == x1, cur[1] == y1))
+    if blank:
+        h.require('b-draws-nothing', len(g.lines) == 0)
+    else:
+        h.require('line-drawn', len(g.lines) == 1 and s_and(
+            g.lines[0][0] == x0, g.lines[0][1] == y0, g.lines[0][2] == x1, g.lines[0][3] == y1))
+    return ['ok', list(cur), g.lines]
+
+
 def body_free(h):
     """any byte string: nothing but a BASIC error (Illegal function call / Overflow) escapes"""
     G, g = _gfx(h)
@@ -168,6 +215,14 @@ def cases(tier):
                 cs.append(Case('move-%s%dd%s' % (''.join(chr(c) for c in pre), nd,
                                                  {0: '', 43: 'p', 45: 'm'}[sign]), body_move,
                                params={'digits': nd, 'prefix': pre, 'sign': sign}))
+    for rel in (0, 43, 45):
+        for pre in ([], [66], [78]):
+            for ysign in (0, 45):
+                if tier != 'thorough' and pre and ysign:
+                    continue
+                cs.append(Case('m-%s%s-y%s' % (''.join(chr(c) for c in pre), {0: 'abs', 43: 'plus', 45: 'minus'}[rel],
+                                               'neg' if ysign else 'pos'), body_m,
+                               params={'rel': rel, 'prefix': pre, 'ysign': ysign, 'nx': 2, 'ny': 1}))
     for L in range(0, (4 if tier == 'thorough' else 3) + 1):
         cs.append(Case('free-%d' % L, body_free, params={'len': L}, max_paths=400000, timeout_s=3000))
     return cs
